@@ -47,7 +47,10 @@ func init() {
 			return has(o, "R2", "/R2/drop-sites", "/R2/stop-arm", "/R2/ticker-stopped-before-drop", "/R2/drop-iff-group-empty", "/R2/del-removes-pair")
 		}, 3, "period-group life cycle")
 	})
-	wrap("C07", func(c *core.Ctx) { queueOpsConfined(c, "P5") })
+	wrap("C07", func(c *core.Ctx) {
+		queueOpsConfined(c, "P5")
+		ieListsNotPresized(c, "P2")
+	})
 	wrap("C16", func(c *core.Ctx) {
 		shareFrom(c, "C02", "R3", func(o *core.Obligation) bool { return has(o, "R5", "/R5/handed-on-args:CreatePDR", "/R5/handed-on-args:UpdatePDR") }, 2, "the PDR IE reaches the driver as the peer sent it")
 	})
@@ -369,19 +372,17 @@ func txSendArms(c *core.Ctx, rule string) {
 	arms := storesToField(fn, timerF)
 	c.Check(rule, "tx-send-arms:timer-stored", fn.Pos(), len(arms) >= 1, "TxTransaction.send stores the retransmission timer")
 	n := 0
-	core.Instrs(fn, func(in ssa.Instruction) {
-		r, ok := in.(*ssa.Return)
-		if !ok || len(r.Results) == 0 {
-			return
-		}
+	armedAt := func(in ssa.Instruction) bool {
 		for _, a := range arms {
-			if core.InstrDominates(a, r) {
-				return
+			if core.InstrDominates(a, in) {
+				return true
 			}
 		}
-		n++
+		return false
+	}
+	marshalOnly := func(v ssa.Value) (bool, []string) {
 		origins := map[string]bool{}
-		errOrigins(p, r.Results[len(r.Results)-1], origins, map[ssa.Value]bool{}, 0)
+		errOrigins(p, v, origins, map[ssa.Value]bool{}, 0)
 		okO := len(origins) > 0
 		var os []string
 		for o := range origins {
@@ -391,6 +392,53 @@ func txSendArms(c *core.Ctx, rule string) {
 				okO = false
 			}
 		}
+		return okO, os
+	}
+	// the error values that can leave the function before the timer is stored, one by one (a helper that was expanded
+	// into send merges its returns: the merge is taken apart edge by edge / store by store)
+	var early func(v ssa.Value, at ssa.Instruction, seen map[ssa.Value]bool) (bool, []string)
+	early = func(v ssa.Value, at ssa.Instruction, seen map[ssa.Value]bool) (bool, []string) {
+		if seen[v] || core.IsNilConst(v) {
+			return true, nil
+		}
+		seen[v] = true
+		switch x := v.(type) {
+		case *ssa.Phi:
+			for i, e := range x.Edges {
+				pb := x.Block().Preds[i]
+				last := pb.Instrs[len(pb.Instrs)-1]
+				if armedAt(last) {
+					continue
+				}
+				if ok, os := early(e, last, seen); !ok {
+					return false, os
+				}
+			}
+			return true, nil
+		case *ssa.UnOp:
+			if al, ok := x.X.(*ssa.Alloc); ok && x.Op == token.MUL {
+				for _, ref := range *al.Referrers() {
+					if st, ok := ref.(*ssa.Store); ok && st.Addr == al {
+						if armedAt(st) {
+							continue
+						}
+						if ok2, os := early(st.Val, st, seen); !ok2 {
+							return false, os
+						}
+					}
+				}
+				return true, nil
+			}
+		}
+		return marshalOnly(v)
+	}
+	core.Instrs(fn, func(in ssa.Instruction) {
+		r, ok := in.(*ssa.Return)
+		if !ok || len(r.Results) == 0 || armedAt(r) {
+			return
+		}
+		n++
+		okO, os := early(r.Results[len(r.Results)-1], r, map[ssa.Value]bool{})
 		c.Check(rule, fmt.Sprintf("tx-send-arms:early-exit#%d", n), r.Pos(), okO,
 			fmt.Sprintf("TxTransaction.send returns before arming the timer only for an encoding error of go-pfcp (error origins here: %v)", os))
 	})
@@ -593,4 +641,43 @@ func queueOpsConfined(c *core.Ctx, rule string) {
 		})
 	}
 	c.Floor(rule, n, 2, "operations on the packet queues")
+}
+
+// ieListsNotPresized: a list of IEs that goes into a message is grown by append: a list made with a non-zero length
+// starts out as nil entries, and a position that is filled only under a condition reaches go-pfcp's encoder as a nil
+// IE (nil dereference under the event loop).  make([]*ie.IE, 0, n) is fine.
+func ieListsNotPresized(c *core.Ctx, rule string) {
+	p := c.P
+	ieT := p.Named(core.PkgIE, "IE")
+	if ieT == nil {
+		c.Anchor(rule, "ie.IE")
+		return
+	}
+	n, examined := 0, 0
+	for _, fn := range p.OwnFuncs() {
+		pk := core.FnPkg(fn)
+		if pk == nil || fn.Blocks == nil || !(pk.Path() == pkgPfcp || pk.Path() == pkgReport) {
+			continue
+		}
+		core.Instrs(fn, func(in ssa.Instruction) {
+			ms, ok := in.(*ssa.MakeSlice)
+			if !ok {
+				return
+			}
+			examined++
+			sl, ok := ms.Type().Underlying().(*types.Slice)
+			if !ok || !isPtrTo(sl.Elem(), ieT) {
+				return
+			}
+			n++
+			zero := false
+			if k, ok := core.ConstInt(ms.Len); ok && k == 0 {
+				zero = true
+			}
+			c.Check(rule, fmt.Sprintf("ie-list-not-presized:%s#%d", core.FnName(fn), n), ms.Pos(), zero,
+				"an IE list is made empty and grown by append (a pre-sized list holds nil IEs until every position is filled; go-pfcp dereferences them when the message is encoded)")
+		})
+	}
+	c.Extra["ie_lists_made"] = n
+	c.Floor(rule, examined, 1, "make() calls examined in packages pfcp and report")
 }
